@@ -2368,7 +2368,53 @@ class Interp:
         return self._comp(e, frame, "set")
 
     def ex_GeneratorExp(self, e, frame):
+        g = self._lazy_genexp(e, frame)
+        if g is not None:
+            return g
         return self._comp(e, frame, "gen")
+
+    def _lazy_genexp(self, e, frame):
+        """A generator expression over a concrete first iterable is the generator function Python makes of it: the first
+        iterable is evaluated now, everything else (conditions, element expressions, inner loops) when the consumer asks
+        for the next element.  Anything else keeps the symbolic treatment of _comp."""
+        if not self.opts.get("lazy_generators", True) or any(getattr(g_, "is_async", 0) for g_ in e.generators):
+            return None
+        first = self.eval(e.generators[0].iter, frame)
+        if isinstance(first, Gen):
+            src = first
+        else:
+            items = self.concrete_iter(first)
+            if items is None:
+                # not concrete: let _comp evaluate it again symbolically (evaluation of the iterable has no effects
+                # worth keeping twice only for calls; conservatively give up laziness)
+                if isinstance(e.generators[0].iter, ast.Call):
+                    return None
+                return None
+            # a list is walked live (by index) like a for loop does; other containers by their snapshot
+            src = first if isinstance(first, Lst) and not getattr(first, "is_gen", False) else Lst(items)
+        cache = self.__dict__.setdefault("_genexp_fns", {})
+        fi = cache.get(id(e))
+        if fi is None:
+            body = ast.Expr(value=ast.Yield(value=e.elt))
+            stmt = body
+            for i_, g_ in reversed(list(enumerate(e.generators))):
+                for cond in reversed(g_.ifs):
+                    stmt = ast.If(test=cond, body=[stmt], orelse=[])
+                it_expr = ast.Name(id="__genexp_iter__", ctx=ast.Load()) if i_ == 0 else g_.iter
+                stmt = ast.For(target=g_.target, iter=it_expr, body=[stmt], orelse=[])
+            fn = ast.FunctionDef(name="<genexpr>", args=ast.arguments(posonlyargs=[], args=[], vararg=None, kwonlyargs=[], kw_defaults=[], kwarg=None, defaults=[]), body=[stmt], decorator_list=[], returns=None, type_comment=None)
+            if hasattr(fn, "type_params"):
+                fn.type_params = []
+            ast.copy_location(fn, e)
+            ast.fix_missing_locations(fn)
+            from .model import FunctionInfo
+            fi = FunctionInfo(fn, frame.module, None, parent=frame.fi)
+            cache[id(e)] = fi
+        sub = Frame(fi, frame.module, {"__genexp_iter__": src}, parent=frame, cls=frame.cls)
+        sub.yields = []
+        g = Gen(self, Fn(fi, None, closure=frame), sub, e)
+        sub.gen = g
+        return g
 
     def ex_DictComp(self, e, frame):
         return self._comp(e, frame, "dict")
@@ -2673,6 +2719,8 @@ class Interp:
         name = None
         pat = None
         rest = args
+        if isinstance(callee, Foreign) and callee.dotted == "re.escape" and len(args) == 1 and isinstance(args[0], Const) and isinstance(args[0].v, str) and not kwargs:
+            return Const(_re.escape(args[0].v))
         if isinstance(callee, Foreign) and callee.dotted in ("re.match", "re.fullmatch", "re.search", "re.compile"):
             name = callee.dotted.split(".")[1]
             if not args or not (isinstance(args[0], Const) and isinstance(args[0].v, str)):
@@ -2701,7 +2749,7 @@ class Interp:
                 return None
             if m is None:
                 return Const(None)
-            return Obj(None, {"__groups__": Tup([Const(g) for g in m.groups()]), "__match0__": Const(m.group(0))}, label=f"re.Match({pat!r})")
+            return Obj(None, {"__groups__": Tup([Const(g) for g in m.groups()]), "__match0__": Const(m.group(0)), "__span__": Tup([Const(m.start()), Const(m.end())]), "__spans__": Tup([Tup([Const(m.start(i + 1)), Const(m.end(i + 1))]) for i in range(len(m.groups()))])}, label=f"re.Match({pat!r})")
         # symbolic subject: keep the pattern visible to rules
         t = Term("call", Term("attr", Obj(None, {"pattern": Const(pat)}, label=f"re.Pattern({pat!r})"), name), (subj,), ())
         t.regex = (pat, name, subj)
@@ -2719,6 +2767,13 @@ class Interp:
 
     # models of builtins and container methods --------------------------------
     def call_builtin(self, name, args, kwargs, node, frame):
+        if name not in ("next", "iter", "isinstance", "id", "type") and any(isinstance(a, Gen) for a in args):
+            # a builtin that consumes its argument gets what the generator has left (any/all/sum/list/sorted/...)
+            args = [self._gen_value(a.items) if isinstance(a, Gen) else a for a in args]
+        if name == "sum" and len(args) in (1, 2) and not kwargs:
+            items = self.concrete_iter(args[0])
+            if items is not None and all(isinstance(x, Const) and isinstance(x.v, (int, float)) for x in items) and (len(args) == 1 or (isinstance(args[1], Const) and isinstance(args[1].v, (int, float)))):
+                return Const(sum((x.v for x in items), args[1].v if len(args) == 2 else 0))
         if name == "divmod" and len(args) == 2 and not kwargs:
             # divmod(a, b) == (a // b, a % b): the same terms (and interval facts) as the two operators
             return Tup([self.binop("FloorDiv", args[0], args[1], node), self.binop("Mod", args[0], args[1], node)])
@@ -3051,6 +3106,13 @@ class Interp:
         if isinstance(base, Obj) and base.label.startswith("re.Match"):
             if meth == "groups" and not args:
                 return base.attrs["__groups__"]
+            if meth in ("start", "end", "span") and "__span__" in base.attrs and len(args) <= 1 and all(isinstance(a, Const) and isinstance(a.v, int) for a in args):
+                gi = args[0].v if args else 0
+                sp = base.attrs["__span__"] if gi == 0 else (base.attrs["__spans__"].items[gi - 1] if 1 <= gi <= len(base.attrs["__spans__"].items) else None)
+                if sp is not None:
+                    return sp if meth == "span" else sp.items[0 if meth == "start" else 1]
+            if meth == "group" and not args:
+                return base.attrs["__match0__"]
             if meth == "group" and len(args) == 1 and isinstance(args[0], Const) and isinstance(args[0].v, int):
                 g = base.attrs["__groups__"].items
                 if args[0].v == 0:
@@ -3132,8 +3194,39 @@ class Interp:
                     raise _Raise(Term("exc", "ValueError"), node)
             if meth == "copy" and not args:
                 return Lst(list(base.items))
+            if meth == "insert" and len(args) == 2 and isinstance(args[0], Const) and isinstance(args[0].v, int):
+                base.items.insert(args[0].v, args[1])
+                self.emit("mutate", node, base=base, how="insert", value=args[1])
+                return Const(None)
+            if meth == "pop" and len(args) <= 1 and all(isinstance(a, Const) and isinstance(a.v, int) for a in args):
+                i_ = args[0].v if args else -1
+                if -len(base.items) <= i_ < len(base.items):
+                    x = base.items.pop(i_)
+                    self.emit("mutate", node, base=base, how="pop", value=x, removed=x)
+                    return x
+                self.emit("raise", node, value=Term("exc", "IndexError"))
+                raise _Raise(Term("exc", "IndexError"), node)
+            if meth == "clear" and not args:
+                del base.items[:]
+                self.emit("mutate", node, base=base, how="clear", value=Const(None))
+                return Const(None)
+            if meth == "reverse" and not args:
+                base.items.reverse()
+                self.emit("mutate", node, base=base, how="reverse", value=Const(None))
+                return Const(None)
+            if meth in ("index", "count") and len(args) == 1:
+                eqs = [True if x is args[0] else same_value(x, args[0]) for x in base.items]
+                if all(e_ is not None for e_ in eqs):
+                    if meth == "count":
+                        return Const(sum(1 for e_ in eqs if e_))
+                    if any(eqs):
+                        return Const(eqs.index(True))
+                    self.emit("raise", node, value=Term("exc", "ValueError"))
+                    raise _Raise(Term("exc", "ValueError"), node)
         if isinstance(base, Const) and isinstance(base.v, str) and meth == "join" and len(args) == 1 and not kwargs:
             items = self.concrete_iter(args[0])
+            if items is not None and all(isinstance(x, Const) and isinstance(x.v, str) for x in items):
+                return Const(base.v.join(x.v for x in items))
             if items is not None and items and all((isinstance(x, Const) and isinstance(x.v, str)) or (isinstance(x, Term) and x.op == "fstr") for x in items) and any(isinstance(x, Term) for x in items):
                 parts = []
                 for i_, x in enumerate(items):
